@@ -360,7 +360,7 @@ PROPS = {
     ),
     'C05': dict(
         level='proof',
-        verus_units=['broker_channel', 'broker_handlers_channel', 'broker_conn_id'],
+        verus_units=['broker_channel', 'broker_handlers_channel', 'broker_conn_id', 'client_channel_receiver'],
         trusted_base=TB_VERUS + TB_CONN + ['std::mem::replace specification'],
         assumptions=[
             'all seven channel functions of broker.rs are verified (create_channel, claim_channel_end, close_channel_end, '
@@ -372,7 +372,12 @@ PROPS = {
             'that a notification is actually put on the wire and arrives (messages are not in the state model); decided instead: '
             'WHERE each channel message may go (precondition of send: ItemReceived / ChannelEndClaimed / ChannelEndClosed / '
             'AddChannelCapacity only to the connection holding the right end)',
-            'client-side Sender/Receiver mirrors (aldrin/src/low_level/channel/established.rs) under schedules',
+            'client-side mirrors under schedules; decided for one step each (unit client_channel_receiver): '
+            'Receiver::poll_next_serialized keeps its credit mirror in (0, max] and grants exactly max - remaining (>= 1) at or below '
+            'the low-water mark, Sender::start_send_serialized uses one unit only when the item was handed over; '
+            'Sender::poll_send_ready / poll_receiver_closed add announced capacity with `+=` (an overflow there would need the '
+            'broker to announce more than u32::MAX in total, which Channel::add_capacity rules out on the broker side; the link is '
+            'not proved)',
         ],
         explanation='inductive invariant + per-operation pre/postconditions on the verbatim text of '
                     'broker/src/broker/channel.rs (credit accounting, end state machine); handler layer: '
